@@ -120,6 +120,16 @@ def run(ctx):
         cid = "lines:%d" % k
         cases.append({"id": cid, "sql": "SELECT t.number AS number, t.text AS text FROM `%s?sep=%s` t" % (path, "".join(lc["sep"])), "full": True})
         expect[cid] = [{"number": i, "text": "".join(t)} for i, t in enumerate(lc["rows"])]
+    # long contents in run-length form (Lines.tla, LongCases): separators across the scanner's read edges
+    longcases = ctx.read_ndjson("c23_lines_long.ndjson")
+    for k, lc in enumerate(longcases):
+        path = os.path.join(d, "ll%d.lines" % k)
+        sep = "".join(lc["sep"])
+        with open(path, "w") as f:
+            f.write(sep.join("x" * n for n in lc["runs"]))
+        cid = "lines:long%d" % k
+        cases.append({"id": cid, "sql": "SELECT t.number AS number, t.text AS text FROM `%s?sep=%s` t" % (path, sep), "full": True})
+        expect[cid] = [{"number": i, "text": "x" * n} for i, n in enumerate(lc["runs"])]
     inp, out = ctx.scratch + "/c23_q.ndjson", ctx.scratch + "/c23_r.ndjson"
     ctx.write_ndjson(inp, cases)
     ctx.driver("file-run", ["-in", inp, "-out", out], timeout=3000)
